@@ -40,7 +40,8 @@ pub fn parse_rootdefinition_enum(
                         &mut context.module,
                     )
                     .unwrap();
-                    expr_ir.0 = cast.apply(expr_ir.0, &mut context.module)
+                    expr_ir.0 = cast.apply(expr_ir.0, &mut context.module);
+                    expr_ir.1 = underlying_type.to_rvalue();
                 }
                 _ => {
                     // Other types are not allowed
